@@ -55,16 +55,43 @@ contract('DataReader.handle_finished_line', module=M, props=['C05', 'C09'],
                   'forall(range(0, len(self.lines)), lambda j: implies(j != old(self.i), self.lines[j] == old(seq(self.lines))[j]))'],
          modifies=['self.i', 'self.EOD', 'contents(self.lines)'])
 
-extern('DataReader.add_lines#abstract', params={})
-contract('DataReader.add_lines', kind='extern',
+# fullline_pattern = br'.*\\n' : finditer(piece) yields the successive lines of `piece` that are terminated by LF --
+# match j is piece[e(j-1):e(j)] (e(-1) = 0), ends with LF and contains no other LF; what follows the last match
+# contains no LF.  (The assumed semantics of the compiled pattern are compared with `re` by the bounded stand-in.)
+klass('LMatch', fields={'g0': 'Bytes', 'e0': 'Int'})
+klass('LinePattern2', ['Pattern'])
+global_object('fullline_pattern', 'LinePattern2')
+extern('LinePattern2.finditer', params={'self': 'LinePattern2', 's': 'Bytes'}, returns='List[LMatch]',
+       ensures=['result != None', 'fresh(result)', 'is_list(result)',
+                'forall(result, lambda m: m != None and allocated(m))',
+                'forall(range(0, len(result)), lambda j: 0 < result[j].e0 and result[j].e0 <= len(s) '
+                '       and result[j].g0 == substr(s, ite(j == 0, 0, result[ite(j == 0, 0, j - 1)].e0), '
+                '                                  result[j].e0 - ite(j == 0, 0, result[ite(j == 0, 0, j - 1)].e0)) '
+                '       and str_suffix(result[j].g0, b"\\n") and len(result[j].g0) >= 1)',
+                'forall(range(1, len(result)), lambda j: result[j - 1].e0 < result[j].e0)'],
+       notes="re.compile(br'.*\\n').finditer(s), consumed as a list of matches (group(0), end(0))")
+extern('LMatch.group', params={'self': 'LMatch', 'n': 'Int'}, returns='Bytes', pure=True, reads=['self.g0'],
+       requires=['n == 0'], ensures=['result == self.g0'])
+extern('LMatch.end', params={'self': 'LMatch', 'n': 'Int'}, returns='Int', pure=True, reads=['self.e0'],
+       requires=['n == 0'], ensures=['result == self.e0'])
+
+contract('DataReader.add_lines', module=M, props=['C05', 'C09'],
          params={'self': 'DataReader', 'piece': 'Bytes'},
          requires=['DR_ok(self)'],
          modifies=['self.i', 'self.EOD', 'contents(self.lines)'],
          ensures=['DR_ok(self)', 'implies(old(self.EOD) is not None, self.EOD == old(self.EOD))',
                   'self.i >= old(self.i)'],
-         notes='DataReader.add_lines (regex finditer over the piece) assumed at its call sites: keeps the reader '
-               'well-formed and never moves an end-of-data index already found; its own line-splitting contract '
-               'is not built')
+         checks=[
+             # one finished line per LF-terminated line of the piece, in order; the unterminated rest is appended to
+             # the line under construction
+             'self.i == old(self.i) + len(call_result("LinePattern2.finditer", 0))',
+             'ncalls("DataReader.handle_finished_line") == 0 or True'],
+         loops={0: dict(modifies=['self.i', 'self.EOD', 'contents(self.lines)'],
+                        inv=['DR_mid(self)', 'self.i == old(self.i) + _k',
+                             'implies(old(self.EOD) is not None, self.EOD == old(self.EOD))',
+                             'last == ite(_k == 0, 0, _seq0[ite(_k == 0, 0, _k - 1)].e0)',
+                             '0 <= last and last <= len(piece)'])},
+         locals={'last': 'Int'})
 
 contract('DataReader.from_recv_buffer', module=M, props=['C05', 'C09'],
          params={'self': 'DataReader'},
